@@ -63,7 +63,14 @@ def gen_env(rng, idx, big=False):
     return L
 
 
-FAMILIES = {'env': gen_env}
+def gen_envdec(rng, idx, big=False):
+    """Same as env but on a decimal time grid (1 tick = 0.1): implementation only (float rounding
+    is outside the model); judged by the order/clock monitors."""
+    L = gen_env(rng, idx, big)
+    return [L[0], ['tick', '10']] + L[1:]
+
+
+FAMILIES = {'env': gen_env, 'envdec': gen_envdec}
 
 
 def to_text(lines):
